@@ -22,5 +22,14 @@ offline = true
 [build]
 target-dir = "$base/target"
 EOC
+# Seed the scratch target dir with a copy of the shared one: third-party crates (librocksdb-sys,
+# wasm-opt-sys, wasmi, ...) are then reused instead of being cold-built (saves >10 min and a lot of CPU);
+# only the /repo path crates and the harness crates are recompiled.
+if [ -d /verif/target/release ]; then
+  mkdir -p "$base/target"
+  cp -a /verif/target/release "$base/target/release" 2>/dev/null || true
+  cp -a /verif/target/cxxbridge "$base/target/cxxbridge" 2>/dev/null || true
+  rm -rf "$base/target/release/incremental" "$base/target/release/.cargo-lock"
+fi
 echo "scratch repo:    $base/repo"
 echo "scratch harness: $base/harness   (target: $base/target)"
